@@ -407,6 +407,75 @@ func genPom(rng *rand.Rand, isParent bool, depth int) *pPom {
 	return p
 }
 
+// genMultiOrigin: one property name defined in several origins (project properties, two or three
+// profiles, the local parent, a profile of the parent) with different values, and in each origin a
+// dependency (artifact mo-*) whose version is ${name}.
+func genMultiOrigin(rng *rand.Rand) []pomFile {
+	name := pick(rng, []string{"lib.version", "x", "dep.ver"})
+	ref := "${" + name + "}"
+	vals := []string{"1.0.0", "2.0.0", "3.1", "4.12", "5.0", "6.0.1"}
+	rng.Shuffle(len(vals), func(a, b int) { vals[a], vals[b] = vals[b], vals[a] })
+	child := genPom(rng, false, 0)
+	child.Profiles, child.Plugins = nil, nil
+	strip := func(p *pPom) { // no other use of the shared name
+		var ps [][2]string
+		for _, kv := range p.Props {
+			if kv[0] != name {
+				ps = append(ps, kv)
+			}
+		}
+		p.Props = ps
+	}
+	strip(child)
+	if rng.Intn(10) < 7 {
+		child.Props = append(child.Props, [2]string{name, vals[0]})
+		if rng.Intn(10) < 7 {
+			child.HasDeps = true
+			child.Deps = append(child.Deps, pDep{G: "org.multi", A: "mo-proj", V: ref})
+		}
+	}
+	np := 2 + rng.Intn(2)
+	for k := 0; k < np; k++ {
+		pr := pProfile{ID: fmt.Sprintf("prof-%d", k+1)}
+		d := pDep{G: "org.multi", A: fmt.Sprintf("mo-p%d", k+1), V: ref}
+		if rng.Intn(3) == 0 {
+			pr.Mgmt = []pDep{d}
+		} else {
+			pr.Deps = []pDep{d}
+		}
+		if k < 2 || rng.Intn(2) == 0 {
+			pr.Props = [][2]string{{name, vals[1+k]}}
+		}
+		if rng.Intn(4) == 0 {
+			pr.Props = append(pr.Props, [2]string{"other", "1"})
+		}
+		child.Profiles = append(child.Profiles, pr)
+	}
+	if rng.Intn(3) == 0 { // the later profile first in the file
+		child.Profiles[0], child.Profiles[1] = child.Profiles[1], child.Profiles[0]
+	}
+	chain := []pomFile{{Path: "pom.xml", Pom: child}}
+	if rng.Intn(2) == 0 {
+		chain[0].Path = "child/pom.xml"
+		par := genPom(rng, true, 1)
+		par.Profiles, par.Plugins = nil, nil
+		strip(par)
+		if rng.Intn(2) == 0 {
+			par.Props = append(par.Props, [2]string{name, vals[4]})
+			if rng.Intn(2) == 0 {
+				par.HasDeps = true
+				par.Deps = append(par.Deps, pDep{G: "org.multi", A: "mo-par", V: ref})
+			}
+		}
+		if rng.Intn(2) == 0 {
+			par.Profiles = []pProfile{{ID: "par-prof", Props: [][2]string{{name, vals[5]}}, Deps: []pDep{{G: "org.multi", A: "mo-parprof", V: ref}}}}
+		}
+		child.Parent = &pParentRef{G: par.G, A: par.A, V: par.V, Rel: "../pom.xml"}
+		chain = append(chain, pomFile{Path: "pom.xml", Pom: par})
+	}
+	return chain
+}
+
 type pomFile struct {
 	Path string `json:"path"`
 	Pom  *pPom  `json:"pom"`
@@ -542,6 +611,9 @@ type pomCase struct {
 	TokensOK   bool              `json:"tokens_ok"`
 	TokensNote string            `json:"tokens_note,omitempty"`
 	RereadOK   bool              `json:"reread_ok"`
+	EffOK      bool              `json:"eff_ok"` // effective versions of all declarations: only the addressed ones changed, to VersionTo
+	EffNote    string            `json:"eff_note,omitempty"`
+	effBefore  []effDecl
 	Claimed    bool              `json:"claimed"` // structural part of the oracle's domain (see claimedDomain)
 	ClaimNote  string            `json:"claim_note,omitempty"`
 	PropPairs  []propPair        `json:"prop_pairs,omitempty"` // generatePropertyPatches calls Write must make, in order
@@ -556,7 +628,7 @@ func (c *pomCase) coq() string {
 	if len(pairs) > 0 {
 		l = cf.List(pairs)
 	}
-	good := c.Outcome == "ok" && c.TokensOK && c.RereadOK
+	good := c.Outcome == "ok" && c.TokensOK && c.RereadOK && c.EffOK
 	return fmt.Sprintf("{| mc_prop_pairs := %s; mc_zero_updates := %s; mc_claimed := %s; mc_panic := %s; mc_error := %s; mc_good := %s |}",
 		l, cf.Bool(len(c.Updates) == 0), cf.Bool(c.Claimed), cf.Bool(c.Outcome == "panic"), cf.Bool(c.Outcome == "err"), cf.Bool(good))
 }
@@ -712,6 +784,7 @@ func (c *pomCase) run(pickUpdates func(m guidedremediation.VerifManifest, reqs [
 	defer os.RemoveAll(dir)
 	c.Outcome, c.Err, c.Out, c.Reqs, c.Reread, c.Want = "", "", nil, nil, nil, nil
 	c.TokensOK, c.TokensNote, c.RereadOK, c.Claimed, c.ClaimNote, c.PropPairs = false, "", false, false, "", nil
+	c.EffOK, c.EffNote, c.effBefore = false, "", nil
 	c.Files = map[string]string{}
 	for _, pf := range c.Chain {
 		c.Files[pf.Path] = pf.Pom.render()
@@ -724,6 +797,14 @@ func (c *pomCase) run(pickUpdates func(m guidedremediation.VerifManifest, reqs [
 		if err := os.WriteFile(full, []byte(content), 0o644); err != nil {
 			panic(err)
 		}
+	}
+	var chainPaths []string
+	for _, pf := range c.Chain {
+		chainPaths = append(chainPaths, pf.Path)
+	}
+	if c.effBefore, err = effDecls(c.Files, chainPaths); err != nil {
+		c.Outcome, c.Err = "read-error", "oracle cannot read the generated poms: "+err.Error()
+		return
 	}
 	m, err := readMaven(in, c.Main)
 	if err != nil {
@@ -785,6 +866,7 @@ func (c *pomCase) run(pickUpdates func(m guidedremediation.VerifManifest, reqs [
 	if _, ok := c.Out[c.Main]; !ok {
 		c.TokensOK, c.TokensNote = false, "main pom not written"
 	}
+	c.effOracle(chainPaths)
 	m2, err := readMaven(outRoot, c.Main)
 	if err != nil {
 		c.Err = "reread: " + err.Error()
@@ -875,16 +957,111 @@ func (c *pomCase) domain() {
 			continue
 		}
 		c.PropPairs = append(c.PropPairs, propPair{S1: *orig, S2: u.To})
-		for _, ph := range placeholderRe.FindAllString(*orig, -1) {
+		// the property definitions in effect for this declaration (independent resolver, eff.go)
+		d := c.addressedDecl(u)
+		if d == nil {
+			note("oracle cannot locate the addressed declaration")
+			continue
+		}
+		for j, ph := range placeholderRe.FindAllString(d.Raw, -1) {
 			name := ph[2 : len(ph)-1]
-			if strings.Count(all, ph) != 1 {
+			def := ""
+			if j < len(d.Defs) {
+				def = d.Defs[j]
+			}
+			if def == "" {
+				note("property " + name + " undefined")
+				continue
+			}
+			if !strings.HasPrefix(def, itoa(d.File)+"|") {
+				note("property " + name + " in effect for the declaration is defined in another pom of the chain")
+			}
+			users, textual := 0, 0
+			for _, o := range c.effBefore {
+				for _, od := range o.Defs {
+					if od == def {
+						users++
+						break
+					}
+				}
+				textual += strings.Count(o.Raw, ph)
+			}
+			if users != 1 {
 				note("property " + name + " referenced more than once")
 			}
-			if strings.Count(all, "<"+name+">") != 1 {
-				note("property " + name + " not defined exactly once")
+			if strings.Count(all, ph) != textual {
+				note("property " + name + " used outside dependency versions")
 			}
 		}
 	}
+}
+
+// addressedDecl: the declaration the update is addressed to (first by key in chain order, as the
+// domain requires the key to be declared once).
+func (c *pomCase) addressedDecl(u mUpdate) *effDecl {
+	k := mReqKey(u.Name, u.Type, u.Classifier)
+	for i := range c.effBefore {
+		if c.effBefore[i].Key == k {
+			return &c.effBefore[i]
+		}
+	}
+	return nil
+}
+
+// effOracle: effective versions after Write = effective versions before, with exactly the addressed
+// declarations standing for VersionTo.
+func (c *pomCase) effOracle(chainPaths []string) {
+	files := map[string]string{}
+	for p, content := range c.Files {
+		files[p] = content
+		if o, ok := c.Out[p]; ok {
+			files[p] = o
+		}
+	}
+	after, err := effDecls(files, chainPaths)
+	if err != nil {
+		c.EffNote = "written poms unreadable: " + err.Error()
+		return
+	}
+	want := append([]effDecl{}, c.effBefore...)
+	for _, u := range c.Updates {
+		if u.New {
+			continue
+		}
+		k := mReqKey(u.Name, u.Type, u.Classifier)
+		for i := range want {
+			if want[i].Key == k {
+				want[i].Eff = u.To
+				break
+			}
+		}
+	}
+	insertion := false
+	for _, u := range c.Updates {
+		insertion = insertion || u.New
+	}
+	if insertion { // added management entries are extra declarations: compare the originals only
+		var kept []effDecl
+		wi := 0
+		for _, a := range after {
+			if wi < len(want) && a.File == want[wi].File && a.Origin == want[wi].Origin && a.Key == want[wi].Key {
+				kept = append(kept, a)
+				wi++
+			}
+		}
+		after = kept
+	}
+	if len(after) != len(want) {
+		c.EffNote = fmt.Sprintf("%d declarations before, %d after", len(want), len(after))
+		return
+	}
+	for i := range want {
+		if after[i].File != want[i].File || after[i].Origin != want[i].Origin || after[i].Key != want[i].Key || after[i].Eff != want[i].Eff {
+			c.EffNote = fmt.Sprintf("declaration %s (pom %d, origin %q): effective version %q, want %q", want[i].Key, want[i].File, want[i].Origin, after[i].Eff, want[i].Eff)
+			return
+		}
+	}
+	c.EffOK = true
 }
 
 // originalVersion mirrors the search order of OriginalDependency over the base project and then each
@@ -1012,6 +1189,29 @@ func (pomEmitter) generate(rng *rand.Rand, n int) []anyCase {
 		c.run(nil)
 		out = append(out, c)
 	}
+	{ // the child's version uses a property that only the local parent defines
+		child := simplePom(nil, "${pv}", 0)
+		child.Parent = &pParentRef{G: "g", A: "par", V: "7", Rel: "../pom.xml"}
+		par := simplePom([][2]string{{"pv", "1.0"}}, "3.0", 0)
+		par.A, par.V, par.Packaging = "par", "7", "pom"
+		par.Deps[0].A = "in-parent"
+		c := &pomCase{Stream: "boundary", Chain: []pomFile{{Path: "child/pom.xml", Pom: child}, {Path: "pom.xml", Pom: par}},
+			Updates: []mUpdate{{Name: "org.example:alpha", From: "1.0", To: "1.1"}}}
+		c.run(nil)
+		out = append(out, c)
+	}
+	{ // the same property name in two profiles, the dependency of the first profile is updated
+		p := simplePom([][2]string{{"lib.version", "0.5"}}, "${lib.version}", 0)
+		p.Profiles = []pProfile{
+			{ID: "jdk8", Props: [][2]string{{"lib.version", "1.0.0"}}, Deps: []pDep{{G: "org.example", A: "lib-a", V: "${lib.version}"}}},
+			{ID: "jdk11", Props: [][2]string{{"lib.version", "2.0.0"}}, Deps: []pDep{{G: "org.example", A: "lib-b", V: "${lib.version}"}}}}
+		for _, u := range []mUpdate{{Name: "org.example:lib-a", From: "1.0.0", To: "1.0.1"}, {Name: "org.example:lib-b", From: "2.0.0", To: "2.0.1"}} {
+			q := *p
+			c := &pomCase{Stream: "boundary", Chain: []pomFile{{Path: "pom.xml", Pom: &q}}, Updates: []mUpdate{u}}
+			c.run(nil)
+			out = append(out, c)
+		}
+	}
 	{ // two requirements share one property, one of them is updated
 		p := simplePom([][2]string{{"v", "1.0"}}, "${v}", 0)
 		p.Deps = append(p.Deps, pDep{G: "org.example", A: "beta", V: "${v}"})
@@ -1025,7 +1225,37 @@ func (pomEmitter) generate(rng *rand.Rand, n int) []anyCase {
 		case r < 12:
 			c.Stream = "zero-updates"
 			c.run(func(guidedremediation.VerifManifest, []resolve.RequirementVersion) []mUpdate { return nil })
-		case r < 90:
+		case r >= 74 && r < 90:
+			c.Stream = "same-property-multi-origin"
+			c.Chain = genMultiOrigin(rng)
+			turn := k
+			c.run(func(m guidedremediation.VerifManifest, reqs []resolve.RequirementVersion) []mUpdate {
+				// the declarations that use the shared name, each addressed in turn
+				var targets []effDecl
+				for _, d := range c.effBefore {
+					if strings.Contains(d.Key, ":mo-") {
+						targets = append(targets, d)
+					}
+				}
+				for n := 0; n < len(targets); n++ {
+					d := targets[(turn+n)%len(targets)]
+					for _, rq := range reqs {
+						u0 := updateOfReq(rq, "")
+						if mReqKey(u0.Name, u0.Type, u0.Classifier) != d.Key {
+							continue
+						}
+						to := pick(rng, []string{"9.9.1", "7.0", "1.0.1", "3", "12.4.0"})
+						if to == d.Eff || strings.Contains(d.Eff, "${") {
+							continue
+						}
+						u := updateOfReq(rq, to)
+						u.From = d.Eff
+						return []mUpdate{u}
+					}
+				}
+				return nil
+			})
+		case r < 74:
 			c.Stream = "addressed"
 			c.run(func(m guidedremediation.VerifManifest, reqs []resolve.RequirementVersion) []mUpdate {
 				var ups []mUpdate
